@@ -769,10 +769,13 @@ fn exec_inner(t: &[&str]) -> Option<Out> {
                                     fails.push(("cached Secure verdict whose fresh validation should not have been Secure".into(), String::new()));
                                 } else if !same_signed {
                                     let case_only = fi.sig == s && fi.raw_lower == raw_lower;
-                                    stats.push(format!("h.deviation.{}", if case_only { "validation-cache-key-folds-rdata-case" } else { "UNEXPLAINED" }));
+                                    stats.push(format!("h.deviation.{}", if case_only { "validation-cache-key-folds-rdata-case" } else { "other-content" }));
                                     fails.push((
-                                        "Secure from the validation cache for an RRset whose signed RDATA differs from the validated one (the cache key hashes names inside RDATA case-insensitively, the canonical form of this type keeps their case)".into(),
-                                        if case_only { "validation-cache-key-folds-rdata-case".into() } else { String::new() },
+                                        format!(
+                                            "Secure from the validation cache for an RRset whose signed RDATA differs from the validated one{}",
+                                            if case_only { " in letter case only (regression of /repo a831deb: the cache key must hash the exact RDATA)" } else { "" }
+                                        ),
+                                        String::new(),
                                     ));
                                 } else {
                                     let mut why = vec![];
@@ -787,7 +790,7 @@ fn exec_inner(t: &[&str]) -> Option<Out> {
                                     }
                                     if !why.is_empty() {
                                         stats.push("h.deviation.validation-cache-outlives-signature".into());
-                                        fails.push((format!("Secure from the validation cache: {}", why.join("; ")), "validation-cache-outlives-signature".into()));
+                                        fails.push((format!("Secure from the validation cache: {} (regression of /repo 411522f: the cache must not outlive the signature)", why.join("; ")), String::new()));
                                     }
                                 }
                             }
